@@ -10,6 +10,8 @@ hierarchy:= {"templates": [template...] (all of them go into the DictLoader), "c
 """
 from __future__ import annotations
 
+from markupsafe import Markup
+
 BLOCK_IDS = {f"b{i}": i for i in range(1, 10)}
 VAR_IDS = {"i": 101, "k": 102, "loop.index": 103, "x": 111, "y": 112}
 TEXT_ALPHABET = "abcdefgXYZ0123456789[]()<>.,:;-_=+ "
@@ -70,6 +72,12 @@ def stmt_src(kind, text):
         return "{%% with zz = 1 %%}%s{%% endwith %%}" % text
     if kind == "set":
         return "{%% set zs %%}%s{%% endset %%}" % text
+    if kind == "if":
+        return "{%% if 1 %%}%s{%% endif %%}" % text
+    if kind == "raw":
+        return "{%% raw %%}%s{%% endraw %%}" % text
+    if kind == "auto":
+        return "{%% autoescape false %%}%s{%% endautoescape %%}" % text
     raise AssertionError(kind)
 
 
@@ -189,7 +197,7 @@ def enc_template(t, out):
 def model_line(h, fuel=64):
     by = {t["name"]: t for t in h["templates"]}
     out = [str(fuel)]
-    mv = [(VAR_IDS[k], v) for k, v in h["data"].items() if k in VAR_IDS]
+    mv = [(VAR_IDS[k], str(v)) for k, v in h["data"].items() if k in VAR_IDS]
     out.append(str(len(mv)))
     for k, v in mv:
         out += [str(k), enc_str(v)]
@@ -200,17 +208,38 @@ def model_line(h, fuel=64):
 
 
 # ---------------------------------------------------------------- the real engine
-def real_render(jinja2, h, want_blocks=False, srcs=None, env=None):
+ENV_KINDS = ["plain", "async", "autoescape", "sandbox", "async+autoescape"]
+
+
+def make_env(jinja2, loader, kind="plain", **kw):
+    """the configuration axes C04's text does not exclude: sync / async rendering, autoescaping, sandbox"""
+    if kind == "sandbox":
+        from jinja2.sandbox import SandboxedEnvironment
+        return SandboxedEnvironment(loader=loader, **kw)
+    return jinja2.Environment(loader=loader, enable_async="async" in kind, autoescape="autoescape" in kind, **kw)
+
+
+def real_render(jinja2, h, want_blocks=False, srcs=None, env=None, kind="plain", history=False):
     return real_render_src(jinja2, srcs if srcs is not None else (None if env is not None else sources(h)),
-                           h["chain"][0], h["data"], extends_data(h), want_blocks, env)
+                           h["chain"][0], h["data"], extends_data(h), want_blocks, env, kind, history)
 
 
-def real_render_src(jinja2, srcs, main, data, xdata, want_blocks=False, env=None):
+def real_render_src(jinja2, srcs, main, data, xdata, want_blocks=False, env=None, kind="plain", history=False):
     from jinja2 import exceptions as X
     if env is None:
-        env = jinja2.Environment(loader=jinja2.DictLoader(srcs))
+        env = make_env(jinja2, jinja2.DictLoader(srcs), kind)
     data = dict(data)
     blocks = None
+    if history:
+        # the same (cached) Template objects rendered before with every condition flipped: nothing of that render
+        # may survive into the one that is judged
+        try:
+            d0 = dict(data)
+            for k, v in xdata.items():
+                d0[k] = (not v) if isinstance(v, bool) else (env.get_template(v[1]) if isinstance(v, (tuple, list)) else v)
+            env.get_template(main).render(d0)
+        except Exception:  # noqa
+            pass
     try:
         for k, v in xdata.items():
             data[k] = env.get_template(v[1]) if isinstance(v, (tuple, list)) else v
@@ -318,7 +347,7 @@ class HGen:
 
     def stmt(self):
         r = self.r
-        kind = r.choice(["inc", "inc", "incw", "call", "filter", "filterb", "with", "set"])
+        kind = r.choice(["inc", "inc", "incw", "call", "filter", "filterb", "with", "set", "if", "raw", "auto"])
         return ("e", kind, "".join(r.choice("abcxyz0123456789") for _ in range(r.randint(1, 2))))
 
     def body(self, t, names, pending, nest, inloop, lvl):
@@ -438,7 +467,8 @@ class HGen:
                 alive = any(top[0] == "x" and top[1] in (None, True) for top in t["tops"]) and parent is not None
         data = {}
         if r.random() < 0.8:
-            data["x"] = "X"
+            # value kinds: str, a str subclass (Markup), an int: all print as their text
+            data["x"] = r.choice(["X", "X", Markup("Xm"), 7])
         if r.random() < 0.3:
             data["y"] = "Yy"
         if r.random() < 0.3:
